@@ -18,9 +18,6 @@ use ndarray_interp::{BuilderError, InterpolateError};
 use ndarray::ShapeBuilder;
 
 use crate::proto::*;
-use crate::q::Q;
-use crate::z::Z;
-use crate::z32::Z32;
 
 pub enum Outcome {
     Text(String),
@@ -730,7 +727,14 @@ fn run_op<T: Scalar>(t: &mut Toks) -> Result<Outcome, String> {
 }
 
 /// one protocol line in, one result line out
-pub fn run_line(line: &str) -> String {
+/// one protocol case at element type `T`: (was the outcome a builder error?, result text)
+pub fn op<T: Scalar>(t: &mut Toks) -> Result<(bool, String), String> {
+    run_op::<T>(t).map(|o| (matches!(o, Outcome::Berr(_)), o.show::<T>()))
+}
+
+/// `dispatch` maps the scalar tag of the record to `op::<T>`; each runner binary instantiates the crate at its own element
+/// types only (the three binaries compile in parallel)
+pub fn run_line(line: &str, dispatch: fn(&str, &mut Toks) -> Result<(bool, String), String>) -> String {
     let mut t = Toks::new(line);
     let id = match t.next() {
         Ok(i) => i.to_string(),
@@ -743,16 +747,7 @@ pub fn run_line(line: &str) -> String {
     crate::q::reset_arena();
     ORDER.with(|o| o.set(id.parse::<u64>().unwrap_or(0)));
     let r = catch_unwind(AssertUnwindSafe(|| {
-        let r = match s {
-            "Q" => run_op::<Q>(&mut t).map(|o| (matches!(o, Outcome::Berr(_)), o.show::<Q>())),
-            "F" => run_op::<f64>(&mut t).map(|o| (matches!(o, Outcome::Berr(_)), o.show::<f64>())),
-            // i64 elements (through the transparent stand-in `Z`): integer division, integer casts
-            "I" => run_op::<Z>(&mut t).map(|o| (matches!(o, Outcome::Berr(_)), o.show::<Z>())),
-            // f32 and i32 elements
-            "G" => run_op::<f32>(&mut t).map(|o| (matches!(o, Outcome::Berr(_)), o.show::<f32>())),
-            "J" => run_op::<Z32>(&mut t).map(|o| (matches!(o, Outcome::Berr(_)), o.show::<Z32>())),
-            _ => Err(format!("bad scalar type {s}")),
-        };
+        let r = dispatch(s, &mut t);
         match r {
             Ok((is_berr, text)) => {
                 if is_berr || t.done() {
@@ -767,5 +762,33 @@ pub fn run_line(line: &str) -> String {
     match r {
         Ok(s) => format!("{id} {s}"),
         Err(_) => format!("{id} panic"),
+    }
+}
+
+/// stdin -> stdout loop shared by the runner binaries
+pub fn serve(dispatch: fn(&str, &mut Toks) -> Result<(bool, String), String>) {
+    use std::io::{BufRead, Write};
+    // panics of the crate under test are outcomes, not noise
+    std::panic::set_hook(Box::new(|_| {}));
+    let args: Vec<String> = std::env::args().collect();
+    match args.get(1).map(|s| s.as_str()) {
+        Some("run") => {
+            let stdin = std::io::stdin();
+            let stdout = std::io::stdout();
+            let mut out = std::io::BufWriter::new(stdout.lock());
+            for line in stdin.lock().lines() {
+                let line = line.expect("read");
+                if line.trim().is_empty() {
+                    continue;
+                }
+                writeln!(out, "{}", run_line(&line, dispatch)).expect("write");
+                // flushed per record: if the crate brings the process down, everything answered so far has been delivered
+                out.flush().expect("flush");
+            }
+        }
+        _ => {
+            eprintln!("usage: vharness[_f|_i] run < cases > results   (scenario binaries: vharness_casts, vharness_hist <seed> <n>, vharness_custom <seed> <n>)");
+            std::process::exit(2);
+        }
     }
 }
